@@ -360,6 +360,12 @@ func (fc *followerController) Replicate(stream proto.OxiaLogReplication_Replicat
 		return constant.ErrLeaderAlreadyConnected
 	}
 
+	if fc.wal == nil {
+		// The controller was closed after the rpc handler looked it up
+		fc.Unlock()
+		return constant.ErrAlreadyClosed
+	}
+
 	closeStreamWg := concurrent.NewWaitGroup(1)
 	fc.closeStreamWg = closeStreamWg
 	// The sync routine acks the entries that get synced after this point, no
